@@ -260,6 +260,9 @@ func (r *rewriter) stmts(list []ast.Stmt) []ast.Stmt {
 						&ast.SelectorExpr{X: sel.X, Sel: ast.NewIdent(try)}, &ast.SelectorExpr{X: sel.X, Sel: ast.NewIdent(unl)}}}})
 					r.insertions++
 					out = append(out, s)
+					// and a switch point right after the lock is taken: others get to run
+					// (and to find the lock held) while this task is inside the critical section
+					out = append(out, yieldStmt("lock"))
 					continue
 				}
 			}
